@@ -200,6 +200,9 @@ def records(drv):
     r2 = copy.deepcopy(rec); r2[k]["from"] = [0, 0]
     ok, why = records_accept("TileAddrTrace", "TileAddrTrace.cfg", "tileaddr_trace.ndjson", [json.dumps(x) for x in r2])
     report("tileaddr", "outside point mapped to a tile", not ok, why)
+    r2 = copy.deepcopy(rec); r2[k]["docid"] = r2[k]["z"] + 1
+    ok, why = records_accept("TileAddrTrace", "TileAddrTrace.cfg", "tileaddr_trace.ndjson", [json.dumps(x) for x in r2])
+    report("tileaddr", "tile Z answered with the matrix of another id", not ok, why)
     # TmsJson
     vec = [{"muts": [], "class": ""}, {"muts": [{"w": "mid", "f": "tileWidth", "op": "zero"}], "class": ""},
            {"muts": [{"w": "doc", "f": "title", "op": "delete"}], "class": ""}]
